@@ -189,6 +189,10 @@ class PitRun:
             self.bg.append('loop:' + type(c.get('exception')).__name__ if c.get('exception') is not None
                            else 'loop:' + str(c.get('message'))[:40])
         self.loop.errors.clear()
+        # "nothing about it remains pending": no node of the pending-Interest trie may be left without an entry
+        tree = self.app._pit if self.front == 'v2' else self.app._int_tree
+        if any(len(node.pending_list) == 0 for node in tree.itervalues()):
+            self.bg.append('empty-pit-node-left-behind')
         p = {'now': self.tick(), 'up': bool(self.face.running),
              'out': [self.outcome(i) for i in range(len(self.tasks))],
              'npit': self.npit(), 'vnew': sorted(self.vnew), 'bg': len(self.bg),
